@@ -60,6 +60,23 @@ def bounded_codes(tier='quick', seed=0):
                 fails.append({'call': f'Bits({name}={i})', 'expected': ref(i)[:80]})
                 if len(fails) > 5:
                     break
+    # every creation route of a code gives the same codeword -- 0 (the one-bit codeword '1') included
+    from bitstring import pack, BitArray, Dtype
+    for name, ref in refs.items():
+        for v in [0, 1, 2, 5, 100] + ([-1, -2, -100] if name in ('se', 'sie') else []):
+            evals += 1
+            want = ref(v)
+            routes = {'keyword': lambda: Bits(**{name: v}).bin, 'format string': lambda: Bits(f'{name}={v}').bin, 'pack positional': lambda: pack(name, v).bin,
+                      'pack keyword value': lambda: pack(f'{name}=n', n=v).bin, 'pack mixed': lambda: pack(f'{name}=a, {name}', v, a=v).bin[:len(want)],
+                      'property': lambda: (lambda x: (setattr(x, name, v), x.bin)[1])(BitArray()), 'Dtype.build': lambda: Dtype(name).build(v).bin}
+            for rn, f in routes.items():
+                try:
+                    got = f()
+                except Exception as e:
+                    got = type(e).__name__
+                if got != want:
+                    fails.append({'call': f'{rn} of {name}={v}', 'observed': got[:40], 'expected': want[:40],
+                                  'python': f"import bitstring\ntry:\n    FAILS = bitstring.pack('{name}=n', n={v}).bin != '{want}' or bitstring.Bits({name}={v}).bin != '{want}'\nexcept Exception:\n    FAILS = True\n"})
     # self-delimiting streams: concatenations read back one codeword at a time
     for _ in range(400 if tier == 'quick' else 4000):
         names = [rng.choice(list(refs)) for _ in range(rng.randint(1, 6))]
